@@ -68,6 +68,11 @@ def mean_field_two_baths(inp):
     return {'violates': max(dev) > 1e-5, 'max deviation unique=True vs unique=False (species 1, species 2, field)': dev}
 
 
+def node_array_operations(inp):
+    from replay.c01 import node_array_operations as f
+    return f(inp)
+
+
 def svd_sweep_parameters(inp):
     from replay.c01 import svd_sweep_parameters as f
     return f(inp)
